@@ -20,8 +20,9 @@ REQUIRED = [
     "flip_same_rotation", "simpleXYZRotation_preserves", "simpleXYZRotation_within_pi", "makeNear_preserves_rotation",
     "makeNear_within_pi", "nearestRotation_preserves_rotation", "nearestRotation_within_pi",
     "angleMod_in_range", "angleMod_congruent", "angleMod_driver_instance",
-    "extractEulerXYZ_inverts_setEulerAngles", "extractEulerZYX_inverts_builder", "extractEuler_inverts_setRotation",
-    "extract_toMatrix33_XYZ", "extract_first_angle_partial",
+    "extract_inverts_toMatrix33_partial", "toMatrix33_extract_roundtrip_partial", "extract_inverts_toMatrix44_partial",
+    "extract_inverts_toQuat_partial", "extractEulerXYZ_inverts_setEulerAngles", "extractEulerZYX_inverts_builder",
+    "extractEuler_inverts_setRotation",
 ]
 
 # which residue sections can falsify which theorem (search for a concrete failing input)
@@ -53,8 +54,10 @@ SECTIONS = {
     "real_order_eq_model": ["order"], "order_setOrder": ["order"],
     "extractEulerXYZ_inverts_setEulerAngles": ["extractEulerXYZ"], "extractEulerZYX_inverts_builder": ["extractEulerZYX"],
     "extractEuler_inverts_setRotation": ["extractEuler22", "extractEuler33"],
-    "extract_toMatrix33_XYZ": ["extract-roundtrip", "extract-toMatrix-real"],
-    "extract_first_angle_partial": ["extract-roundtrip", "extract-toMatrix-real"],
+    "extract_inverts_toMatrix33_partial": ["extract-roundtrip", "extract-toMatrix-real", "extract-roundtrip-gimbal"],
+    "toMatrix33_extract_roundtrip_partial": ["extract-roundtrip", "extract-toMatrix-real", "extract-roundtrip-gimbal"],
+    "extract_inverts_toMatrix44_partial": ["extract33-vs-extract44", "extract-roundtrip", "toMatrix44-embed"],
+    "extract_inverts_toQuat_partial": ["extract-quat-roundtrip", "toQuat-vs-spec"],
 }
 
 
@@ -88,7 +91,8 @@ def residue(chk, rc, out, m, fails):
         for kv in m.group(7).split():
             k, _, v = kv.partition("=")
             res["worst_" + k] = float(v)
-        res["bounds"] = {"toMatrix_vs_spec_over_eps_amax": 8, "roundtrip_over_eps": 24, "roundtrip_gimbal_over_eps": 24, "reorder_over_eps": 24,
+        res["bounds"] = {"setEulerAngles_vs_spec_over_eps": 8, "extractEulerXYZ_angle_err_over_eps_cond": 16, "extractEulerZYX_angle_err_over_eps_cond": 16,
+                         "extractEuler2D_angle_err_over_eps": 8, "toMatrix_vs_spec_over_eps_amax": 8, "roundtrip_over_eps": 24, "roundtrip_gimbal_over_eps": 24, "reorder_over_eps": 24,
                          "makeNear_rotation_over_epsf_amax": 8, "makeNear_excess_over_pi_in_epsf_amax": 4, "angleMod_congruence_over_tol": 1}
         chk.residues["C11"] = res
     seen = set()
@@ -176,8 +180,9 @@ def run(chk):
     chk.assumptions = [
         "sin/cos/sqrt/atan2 are parameters of the theorems with explicit hypotheses (each shown to hold for the real functions)",
         "rounding is NOT proved: measured (builders vs spec, round trips, single-precision claims)",
-        "toMatrix(extract M) = M is proved over R only for XYZ and ZYX in the principal range (|middle| < pi/2) and for the first "
-        "angle of every non-repeated static order; other orders, gimbal neighbourhoods, 'within pi of target' on floats: measured",
+        "extract(toMatrix a) = a (hence the round trip, also via 4x4 and quaternion) is proved over R for all 24 orders on the OPEN principal "
+        "range only; gimbal lock and its neighbourhoods, angles exactly +-pi, surjectivity onto all rotation matrices (needed by the "
+        "re-ordering constructor), 'within pi of target' on floats: measured",
         "nearestRotation adds the double M_PI, not pi: the rotation-preservation theorems assume sin/cos have half period M_PI "
         "(|M_PI - pi| = 1.2e-16 is part of the measured residue)",
         "casting an arbitrary 16-bit pattern to the unscoped enum Euler<T>::Order (order correspondence) relies on g++ treating the enum as int",
@@ -198,7 +203,10 @@ def run(chk):
         troute.regenerate(chk, bins["sym_leaf"], "leaf")
         index, changed = troute.regenerate(chk, bins["sym_c11"], "c11", idx_deps=[LEAF_IDX])
         troute.tv(chk, bins["sym_c11"], "c11", 400 if chk.thorough else 64, idx_deps=[LEAF_IDX])
-        troute.lean_tv(chk, bins["sym_c11"], "c11", index, n=4 if chk.thorough else 1, idx_deps=[LEAF_IDX])
+        # entries without scalar/aggregate inputs (angleOrder_*, angleMapping_*, order_*: integer constants with an unresolvable implicit
+        # element type in a bare #eval) are validated by the `real_*_eq_model` theorems instead
+        index_tv = [d for d in index if d.get("params")]
+        troute.lean_tv(chk, bins["sym_c11"], "c11", index_tv, n=4 if chk.thorough else 1, idx_deps=[LEAF_IDX])
 
         def search(name):
             if not res:
